@@ -101,6 +101,20 @@ def gen(tier, rng):
                                          dst_lay=lay_with_guard(dlay, 1) if dlay else {"k": "image"}, api=api, cpu=rz.pick(g, 127, rz.CPUS),
                                          log=("digest",), chk=("ret_ok", "outside", "srcsame") + (("memo_exact",) if j else ()), g=g,
                                          mapper=mp[0] if mp else None, direction=mp[1] if mp else None))
+    # in-place alpha operations: the same pixels inside every kind of mutable container, dynamic and typed entry points
+    dyn_dst = [{"k": "image"}, {"k": "slice", "extra": 0}, {"k": "slice", "extra": 7}, {"k": "crop_mut", "pad": [1, 0, 2, 1]},
+               {"k": "crop_mut", "pad": [0, 3, 0, 0]}, {"k": "nested_mut", "pad": [2, 1, 1, 2]}]
+    typed_dst = [{"k": "typed"}, {"k": "typed", "extra": 5}, {"k": "typed_crop_mut", "pad": [3, 1, 0, 2]}, {"k": "typed_crop_mut", "pad": [0, 2, 1, 0]}]
+    for pt in ("U8x2", "U8x4", "U16x2", "U16x4", "F32x2", "F32x4"):
+        for op in ("mul_inplace", "div_inplace"):
+            for (w, h) in ((7, 4), (18, 3), (1, 9)):
+                g += 1
+                seed = rng.randint(1, 10 ** 9)
+                cont = {"g": "rand", "seed": seed, "flo": 0.05, "fhi": 1.0}
+                cpu = rz.pick(g, 127, rz.CPUS)
+                for j, (api, dlay) in enumerate([("dyn", d) for d in dyn_dst] + [("typed", d) for d in typed_dst]):
+                    cases.append(rz.img_case(op, pt, w, h, dst_c=cont, dst_lay=lay_with_guard(dlay, 1) if dlay["k"] != "image" else {"k": "image"},
+                                             api=api, cpu=cpu, log=("digest",), chk=("ret_ok", "outside") + (("memo_exact",) if j else ()), g=g))
     return cases
 
 
